@@ -11,13 +11,14 @@ import (
 	"bytes"
 	"crypto/hmac"
 	"crypto/sha256"
-	"encoding/base64"
 	"errors"
 	"fmt"
 	"net/http"
 	"testing"
 	"time"
 
+	"github.com/libp2p/go-libp2p/core/crypto"
+	"github.com/libp2p/go-libp2p/core/peer"
 	"github.com/libp2p/go-libp2p/internal/verifh"
 	sym "github.com/libp2p/go-libp2p/p2p/http/auth/internal/verifc19"
 )
@@ -49,77 +50,7 @@ func (h *hx) nextChallenge() uint64 {
 	return h.w.Intern(sym.B64(b[:]))
 }
 
-func valsOf(items []sym.Item) []sym.PVal {
-	var vs []sym.PVal
-	for _, it := range items {
-		if it.Name != "" {
-			vs = append(vs, it.Val)
-		}
-	}
-	return vs
-}
-
-// sigCandidates: what an emitted signature may be over, given the values of the
-// incoming header.
-func (h *hx) serverSigCands(key uint64, host uint64, items []sym.Item) []sym.SigCand {
-	var chals, cpks []sym.Term
-	chals = append(chals, sym.Empty())
-	for _, it := range items {
-		if it.Name == "challenge-server" {
-			chals = append(chals, h.w.RawTerm(it.Val.Raw))
-		}
-		if it.Val.Dec != nil {
-			cpks = append(cpks, *it.Val.Dec)
-			if it.Val.Dec.Tag == sym.TPair {
-				if s, ok := sym.DecState(*it.Val.Dec.M); ok && s.Cpk != nil {
-					cpks = append(cpks, *s.Cpk)
-				}
-			}
-		}
-	}
-	var cs []sym.SigCand
-	for _, c := range chals {
-		for _, p := range cpks {
-			cs = append(cs, sym.SigCand{Key: key, Msg: sym.MsgServer(c, p, sym.Atom(host))})
-		}
-	}
-	return cs
-}
-
-func (h *hx) abstractServerOut(hdr string, key, host uint64, items []sym.Item) ([]sym.OutTerm, bool) {
-	ps, ok := sym.SplitEmitted(hdr)
-	if !ok {
-		return nil, false
-	}
-	var out []sym.OutTerm
-	for _, p := range ps {
-		var t sym.Term
-		switch sym.ParamNames[p.Name] {
-		case "challenge-client", "challenge-server":
-			t = h.w.RawTerm(p.Raw)
-		case "public-key":
-			pv := h.w.PVRaw(p.Raw)
-			if pv.Dec == nil {
-				return nil, false
-			}
-			t = *pv.Dec
-		case "sig":
-			b, err := base64.URLEncoding.DecodeString(p.Raw)
-			if err != nil {
-				return nil, false
-			}
-			t = h.w.AbstractSig(b, h.serverSigCands(key, host, items))
-		default: // opaque, bearer
-			b, err := base64.URLEncoding.DecodeString(p.Raw)
-			if err != nil {
-				return nil, false
-			}
-			t = h.w.AbstractBlob(b)
-		}
-		out = append(out, sym.OutTerm{Name: p.Name, T: t})
-	}
-	return out, true
-}
+func valsOf(items []sym.Item) []sym.PVal { return sym.ValsOf(items) }
 
 type srvRes struct {
 	cls, state int
@@ -182,7 +113,7 @@ func (h *hx) serverStep(cfg srvCfg, host string, now int64, hdr string, items []
 				res.hdrName, res.hdr = n, v
 			}
 		}
-		out, ok := h.abstractServerOut(res.hdr, cfg.key, hostID, items)
+		out, ok := h.w.AbstractServerOut(res.hdr, cfg.key, hostID, items)
 		if !ok {
 			res.cls = 8
 			h.out.Cover("server_output_not_understood")
@@ -224,45 +155,7 @@ func (h *hx) newClient(key uint64, host string) *cliSess {
 }
 
 func (s *cliSess) abstractOut(hdr string, seen []sym.Item) ([]sym.OutTerm, bool) {
-	h := s.h
-	ps, ok := sym.SplitEmitted(hdr)
-	if !ok {
-		return nil, false
-	}
-	var out []sym.OutTerm
-	for _, p := range ps {
-		var t sym.Term
-		switch sym.ParamNames[p.Name] {
-		case "public-key":
-			pv := h.w.PVRaw(p.Raw)
-			if pv.Dec == nil {
-				return nil, false
-			}
-			t = *pv.Dec
-		case "sig":
-			b, err := base64.URLEncoding.DecodeString(p.Raw)
-			if err != nil {
-				return nil, false
-			}
-			chals := []sym.Term{sym.Empty()}
-			for _, it := range seen {
-				if it.Name == "challenge-client" {
-					chals = append(chals, h.w.RawTerm(it.Val.Raw))
-				}
-			}
-			var cs []sym.SigCand
-			for _, c := range chals {
-				for k := range h.w.Keys {
-					cs = append(cs, sym.SigCand{Key: s.key, Msg: sym.MsgClient(c, sym.Pub(uint64(k)), sym.Atom(h.w.Intern(s.host)))})
-				}
-			}
-			t = h.w.AbstractSig(b, cs)
-		default: // challenge-server (own), opaque / bearer (echoed raw)
-			t = h.w.RawTerm(p.Raw)
-		}
-		out = append(out, sym.OutTerm{Name: p.Name, T: t})
-	}
-	return out, true
+	return s.h.w.AbstractClientOut(hdr, s.key, s.h.w.Intern(s.host), seen)
 }
 
 // op: 0 SetInitiateChallenge, 1 ParseHeader, 2 Run
@@ -339,4 +232,94 @@ func (s *cliSess) flush() {
 		c = append(c, st...)
 	}
 	s.h.out.Case(c)
+}
+
+// ---- end to end (the executor is registered by the external test file) -------------------
+type VerifTransport struct{ NoTLS, HasFn, FnOK, HasTLS bool }
+
+type VerifE2EResult struct {
+	Err     error
+	Status  int
+	Called  bool
+	Pid     peer.ID
+	SeenHdr string
+	SeenTLS bool
+	SeenSNI string
+	RespHdr string
+}
+
+var VerifE2EServer func(key crypto.PrivKey, keyNo uint64, mac []byte, ttl time.Duration,
+	tr VerifTransport, host, sni, hdr string) VerifE2EResult
+var VerifE2EClose func()
+
+// e2eStep sends the request over HTTP to the real ServerPeerIDAuth and records a mode-1 case.
+func (h *hx) e2eStep(cfg srvCfg, host string, now int64, hdr string, items []sym.Item, tag string) {
+	if VerifE2EServer == nil {
+		return
+	}
+	tr := VerifTransport{NoTLS: true, HasFn: true, FnOK: true}
+	sni := host
+	switch h.rnd.Intn(20) {
+	case 0, 1, 2:
+		tr = VerifTransport{HasTLS: true, HasFn: true, FnOK: true}
+	case 3:
+		tr = VerifTransport{HasTLS: true}
+	case 4:
+		tr = VerifTransport{NoTLS: true} // no ValidHostnameFn: 500
+	case 5:
+		tr = VerifTransport{NoTLS: true, HasFn: true} // hostname refused
+	case 6:
+		tr = VerifTransport{} // plain HTTP while TLS is required
+	case 7:
+		tr = VerifTransport{HasTLS: true, HasFn: true, FnOK: true}
+		sni = "sni.example.net"
+	case 8:
+		tr = VerifTransport{HasTLS: true, HasFn: true} // hostname refused
+	}
+	fresh := h.nextChallenge()
+	nowFn = func() time.Time { return h.w.Time(now) }
+	hostID := h.w.Intern(host)
+	res := VerifE2EServer(h.w.Keys[cfg.key].Priv, cfg.key, h.w.Macs[cfg.mac], cfg.ttl, tr, host, sni, hdr)
+	if res.Err != nil {
+		h.out.Cover("e2e_transport_error")
+		return
+	}
+	pid := int64(-1)
+	if res.Called {
+		if k, ok := h.w.KeyOfID(res.Pid); ok {
+			pid = int64(k)
+		} else {
+			pid = -2
+		}
+	}
+	out, ok := h.w.AbstractServerOut(res.RespHdr, cfg.key, hostID, items)
+	if !ok {
+		h.out.Cover("e2e_output_not_understood")
+		out = nil
+		res.Status = -res.Status
+	}
+	b := func(x bool) int64 {
+		if x {
+			return 1
+		}
+		return 0
+	}
+	c := []int64{3, 1, int64(cfg.key), int64(cfg.mac), int64(cfg.ttl), int64(hostID), now, int64(fresh),
+		b(tr.NoTLS), b(tr.HasFn), b(tr.FnOK), b(res.SeenTLS), b(res.SeenTLS && res.SeenSNI == host)}
+	c = sym.WireTable(c, valsOf(items))
+	c = sym.WireBytes(c, []byte(res.SeenHdr))
+	c = append(c, int64(res.Status), pid)
+	c = sym.WireOHdr(c, out)
+	h.out.Case(c)
+	h.out.Cover(fmt.Sprintf("e2e_status_%d", res.Status))
+	if pid >= 0 {
+		h.out.Cover("e2e_next_called")
+		h.out.Cover(fmt.Sprintf("e2e_next_called_keytype_%d", h.w.Keys[pid].Typ))
+	}
+	if res.SeenHdr != hdr {
+		h.out.Cover("e2e_header_changed_in_transit")
+	}
+	if res.SeenTLS {
+		h.out.Cover("e2e_tls")
+	}
 }
